@@ -6259,7 +6259,7 @@ REGISTRY.setdefault("C16", []).append(c16_credit_writers)
 def c08_one_credit_per_delivery(env):
     o = Obligation("c08_a_delivery_costs_one_credit_however_many_frames_carry_it", "C08")
     o.desc = "the sender's path of one delivery: SenderLink::send_payload takes the credit exactly once (get_delivery_tag_or_detached: consume(1)) before the transfer is built, and nothing downstream of it -- send_payload_with_transfer, the link-level splitter send_transfer_without_modifying_unsettled_map that cuts a large message into several transfers, send_transfer -- consumes credit again: a delivery of N frames costs one credit and advances delivery-count by one"
-    pat_consume = r"as (util::)?Consume>::consume$|(^|::)consume_link_credit$|::try_consume$"
+    pat_consume = r"as (util::)?(consumer::)?Consume>::consume$|(^|::)consume_link_credit$|::try_consume$"
     down = [
         r"^sender_link::<impl at [^>]*>::send_payload_with_transfer::\{closure#0\}$",
         r"^sender_link::<impl at [^>]*>::send_transfer_without_modifying_unsettled_map::\{closure#0\}$",
@@ -6340,7 +6340,7 @@ def c07_counted_frames_are_handed_on(env):
     for k in states:
         ex = env.executor(max_visits=_mv(4, 6))
         ex.max_paths = 4000
-        ex.models = [(r"^<(std::)?vec::IntoIter<(session::frame::)?SessionFrame> as Iterator>::next$", m_next)]
+        ex.models = [(r"^<(&mut )?(std::)?(vec::)?IntoIter<(session::frame::)?SessionFrame> as Iterator>::next$", m_next)]
         cor = mir.Agg("coroutine")
         cor["#d"] = z3.BitVecVal(k, 64)
         pin = mir.Agg("pin")
@@ -6360,7 +6360,11 @@ def c07_counted_frames_are_handed_on(env):
             handed = {}
             for j, c in enumerate(p.calls):
                 if re.search(r"IntoIter<(session::frame::)?SessionFrame> as Iterator>::next$", c[0]) and isinstance(c[3], mir.Agg):
-                    fr = c[3][("as", "Some")][0]
+                    sm_ = c[3].get(("as", "Some"))
+                    fr = sm_.get(0) if isinstance(sm_, mir.Agg) else None
+                    if not (isinstance(fr, mir.Agg) and fr.get("@pos") is not None):
+                        # `for frame in iter.by_ref()` and friends: another iterator adaptor took the frame out
+                        raise mir.Unsupported("a frame leaves the batch through something other than IntoIter::next")
                     taken.append((j, fr["@pos"], c[3]["#d"]))
                 mm = re.search(r"mpsc::(bounded::)?Sender::<(session::frame::)?SessionFrame>::(send|try_send)$", c[0])
                 if mm and len(c[1]) > 1 and isinstance(c[1][1], mir.Agg) and c[1][1].get("@pos") is not None:
